@@ -4,7 +4,7 @@
 #include <stdint.h>
 #include <stddef.h>
 
-enum SimStrategy { ST_RANDOM = 0, ST_STICKY = 1, ST_PCT = 2, ST_STARVE = 3, ST_LOWFIRST = 4, ST_HIGHFIRST = 5, ST_TRACE = 6 };
+enum SimStrategy { ST_RANDOM = 0, ST_STICKY = 1, ST_PCT = 2, ST_STARVE = 3, ST_LOWFIRST = 4, ST_HIGHFIRST = 5, ST_TRACE = 6, ST_RR = 7, ST_PFRR = 8 };
 enum SimOutcome { SO_OK = 0, SO_DEADLOCK = 1, SO_STEPCAP = 2, SO_MISUSE = 3 };
 enum SimOp {
   OP_CREATE = 1, OP_LOCK = 2, OP_LOCKED = 3, OP_TRYLOCK = 4, OP_UNLOCK = 5, OP_CWAIT = 6, OP_CWOKEN = 7,
@@ -57,6 +57,12 @@ void sim_note(int code, int arg);
 // Explicit scheduling point (harness tasks may yield).
 void sim_yield(void);
 int sim_active(void);
+// Stop simulating for good in this process (death paths): every interposer passes through from now on.
+void sim_abandon(void);
+// Death path (sanitizer report): the run in flight leaves its spec and decision trace on `fd`.
+// Implemented in the uninstrumented simulator core: no instrumented code may run while a sanitizer dies.
+void sim_install_death_cb(void);
+void sim_set_death_info(const char *spec, unsigned long long run, int fd); // spec==NULL disables
 int sim_self(void); // ordinal of the calling simulated thread, -1 if none
 // decision trace of the current / last run
 const uint32_t *sim_trace(size_t *len);
